@@ -74,8 +74,12 @@ func devMain(args []string) {
 			if !ok || *verbose {
 				fmt.Printf("  %-10s %-60s %s %dms  [%s]\n", o.Result, o.Name, o.Solver, o.Ms, shortText(o.Text))
 			}
-			if o.Result == "refuted" {
-				fmt.Println("     model:", o.Model)
+			if o.Result == "refuted" || (o.Result == "unknown" && o.CandQuery != "") {
+				if o.Result == "refuted" {
+					fmt.Println("     model:", o.Model)
+				} else {
+					fmt.Println("     candidate counterexample from the quantifier-free weakening")
+				}
 				if *doReplay {
 					rr := tryReplay(w, violation{obl: o, fn: r, reason: "refuted"})
 					if rr != nil {
